@@ -180,6 +180,10 @@ def cache_set(tier):
     return C.recordset("cache-%s" % tier, "MCCache.tla", consts, "bfs", None, timeout=3600, tag="CREC", cfg_extra=("CONSTANT Key <- IdKey",))
 
 
+def vocab_set():
+    return C.recordset("vocab-all", "MCVocab.tla", {"Pairs": 4}, "bfs", None, tag="VREC|VORD")
+
+
 def pregen(tier, seed):
     """Everything TLC derives from the specification alone (setup)."""
     san_sets(tier, seed)
@@ -188,6 +192,7 @@ def pregen(tier, seed):
     C.recordset("uci-all", "MCText.tla", {}, "bfs", None, tag="UREC")
     C.recordset("geom-all", "MCGeom.tla", RawConsts({"Mode": '"geom"', "SqSel": "{0}"}), "bfs", None, tag="GEOM")
     C.recordset("sliders-all", "MCGeom.tla", RawConsts({"Mode": '"slider"', "SqSel": ALLSQ}), "bfs", None, tag="SLID")
+    vocab_set()
 
 
 def check_text(prop, tier):
@@ -292,7 +297,15 @@ def check_c16(tier):
         viol.append({"property": prop, "kind": "library_crashed_during_replay", "detail": crash})
         rep = {"violations": [], "counters": {}, "samples": {}}
     viol += rep_violations(rep)
-    cov = coverage([m1, m2], {"chunks": 0, "events": 0, "generated": 0, "distinct": 0},
+    # spec growth beyond the listed properties: the small value types (module Vocab), complete tables
+    p3, m3 = vocab_set()
+    rep3, crash3 = replay_stream("replay_vocab", [p3], [])
+    if crash3:
+        viol.append({"property": "SPEC", "kind": "library_crashed_during_vocab_replay", "detail": crash3})
+    else:
+        viol += rep_violations(rep3)
+        rep["counters"].update(rep3["counters"])
+    cov = coverage([m1, m2, m3], {"chunks": 0, "events": 0, "generated": 0, "distinct": 0},
                    {"samples": rep["samples"].get("geom", [])[:3], "feature_counts": rep["counters"], "exhaustive": True,
                     "exhaustive_within": "64 squares, 4096 pairs (between, line), 2 colours, 16 step helpers, every occupancy of the squares "
                                          "relevant to a pawn (plus 3 noise patterns)"})
